@@ -359,7 +359,9 @@ pub(crate) fn validate_directives<'dir>(
                     );
                 }
             }
-        } else {
+        } else if schema.is_some() {
+            // Without a schema there are no directive definitions to look up:
+            // an application is only an error if some schema is known not to define it.
             diagnostics.push(
                 loc,
                 DiagnosticData::UndefinedDirective { name: name.clone() },
